@@ -40,7 +40,7 @@ CENSUS_OK = {
     'trippy_core::state::State::flows': 'ids / counts only: see the Flow projection rule',
 }
 ALLOW = {
-    'trippy_tui::frontend::tui_app::TuiApp::max_hosts::{closure#0}': ('count-only', r'call:\w+::count\(call:Hop::addrs\(p1\)\)'),
+    'trippy_tui::frontend::tui_app::TuiApp::max_hosts::{closure}': ('count-only', r'call:\w+::count\(call:Hop::addrs\(p1\)\)'),
     'trippy_tui::frontend::render::world::build_map_entries': ('collector', None),
 }
 HIDDEN_TRUE = {('Ge', 'P', 'T'), ('Le', 'T', 'P')}
@@ -237,7 +237,7 @@ def run(chk, tier):
                     carriers.setdefault(x, e)
         for x, e in carriers.items():
             inst = '%s→%s(%s)' % (short(path), short(e[1]), x[:40])
-            al = ALLOW.get(path)
+            al = ALLOW.get(re.sub(r'\{closure#\d+\}', '{closure}', path))
             if al:
                 if al[0] == 'count-only':
                     vals = {vshow(o.value) for o in outs if o.kind == 'return'}
